@@ -111,11 +111,9 @@ func (rl *RateLimitValidator) Validate(ctx context.Context, req ports.SecurityRe
 	}
 
 	if rl.globalLimiter != nil {
-		reservation := rl.globalLimiter.Reserve()
-		if !reservation.OK() || reservation.Delay() > 0 {
-			if reservation.Delay() > 0 {
-				reservation.Cancel()
-			}
+		// Allow decides and deducts in one step; reserving and cancelling does not bound
+		// concurrent senders (cancelled reservations hand tokens back more than once)
+		if !rl.globalLimiter.Allow() {
 			return ports.SecurityResult{
 				Allowed:    false,
 				RetryAfter: 60,
@@ -150,21 +148,10 @@ func (rl *RateLimitValidator) checkIPLimit(clientIP string, limit int, now time.
 	limiter := limiterInfo.limiter
 	limiterInfo.mu.Unlock()
 
-	reservation := limiter.Reserve()
-	if !reservation.OK() {
-		return ports.SecurityResult{
-			Allowed:    false,
-			RetryAfter: 60 / limit,
-			RateLimit:  limit,
-			Remaining:  0,
-			ResetTime:  now.Add(time.Minute),
-			Reason:     "Rate limit exceeded",
-		}
-	}
-
-	delay := reservation.Delay()
-	if delay > 0 {
-		reservation.Cancel()
+	// decide and deduct in one step: with Reserve/Cancel overlapping requests of one client
+	// were admitted beyond burst + rate x t, and refusals burned tokens
+	if !limiter.Allow() {
+		delay := retryDelay(limiter)
 
 		limiterInfo.mu.RLock()
 		remaining := rl.calculateRemaining(limiterInfo, limit)
@@ -191,6 +178,19 @@ func (rl *RateLimitValidator) checkIPLimit(clientIP string, limit int, now time.
 		Remaining: remaining,
 		ResetTime: now.Add(time.Minute),
 	}
+}
+
+// retryDelay estimates how long until the limiter has a whole token again
+func retryDelay(limiter *rate.Limiter) time.Duration {
+	perSecond := float64(limiter.Limit())
+	if perSecond <= 0 {
+		return time.Minute
+	}
+	missing := 1 - limiter.Tokens()
+	if missing <= 0 {
+		return 0
+	}
+	return time.Duration(missing / perSecond * float64(time.Second))
 }
 
 func (rl *RateLimitValidator) calculateRemaining(limiterInfo *ipLimiterInfo, limit int) int {
